@@ -41,9 +41,16 @@ type Case struct {
 	K     int
 	T     time.Duration
 	D     time.Duration // < 0: already expired
+	// Prelude, if set, is an earlier call on the same connection (and session)
+	// that failed just before the measured one: "timed-out" (its replies were
+	// lost) or "expired-context" (it was made with an expired context).
+	Prelude string
 }
 
 func (c Case) String() string {
+	if c.Prelude != "" {
+		return fmt.Sprintf("%s/%s/k=%d/T=%v/D=%v/after-%s-call", c.Call, c.Fault, c.K, c.T, c.D, c.Prelude)
+	}
 	return fmt.Sprintf("%s/%s/k=%d/T=%v/D=%v", c.Call, c.Fault, c.K, c.T, c.D)
 }
 
@@ -174,7 +181,25 @@ func runOnce(c Case, seed uint64) (outcome, error) {
 		return outcome{}, err
 	}
 	defer e.close()
-	e.srv.Arm(policy(e.srv, c))
+	if c.Prelude != "" {
+		e.srv.Arm(func(rx *simbmc.Rx) []udpnet.Reply { return nil })
+		pctx, pcancel := context.WithTimeout(context.Background(), c.T+c.T/4)
+		if c.Prelude == "expired-context" {
+			pcancel()
+			pctx, pcancel = context.WithDeadline(context.Background(), time.Now().Add(-time.Millisecond))
+		}
+		var perr error
+		if withSession {
+			_, perr = e.sess.GetDeviceID(pctx)
+		} else {
+			_, perr = e.t.GetSystemGUID(pctx)
+		}
+		pcancel()
+		if perr == nil {
+			return outcome{}, fmt.Errorf("prelude call succeeded against a silent BMC")
+		}
+	}
+	e.srv.Arm(policy(e.srv, c)) // Arm restarts the request count
 	var ctx context.Context
 	var cancel context.CancelFunc
 	if c.D < 0 {
@@ -309,6 +334,14 @@ func cases() []Case {
 	for _, call := range []string{"sessionless", "newsession", "insession", "close", "sdr", "dcmi"} {
 		out = append(out, Case{Call: call, Fault: "garbage-then-blackhole", K: 0, T: 1200 * time.Millisecond, D: 850 * time.Millisecond})
 	}
+	// a call that follows a failed call on the same connection / session within
+	// one attempt timeout, with a deadline shorter than that timeout
+	for _, call := range []string{"sessionless", "newsession", "insession", "close", "sdr", "dcmi"} {
+		for _, pre := range []string{"timed-out", "expired-context"} {
+			out = append(out, Case{Call: call, Fault: "blackhole", K: 0, T: 400 * time.Millisecond, D: 100 * time.Millisecond, Prelude: pre},
+				Case{Call: call, Fault: "garbage", K: 0, T: 300 * time.Millisecond, D: 150 * time.Millisecond, Prelude: pre})
+		}
+	}
 	return out
 }
 
@@ -338,7 +371,7 @@ func TestDeadlines(t *testing.T) {
 		// a seed-dependent stride through the enumeration, keeping every (call, fault) pair
 		stride := 5
 		for i, c := range all {
-			if (i+int(ev.Seed))%stride == 0 || c.T > time.Second || (strings.HasPrefix(c.Fault, "truncated-") && c.D >= 2*c.T) {
+			if (i+int(ev.Seed))%stride == 0 || c.T > time.Second || (strings.HasPrefix(c.Fault, "truncated-") && c.D >= 2*c.T) || c.Prelude != "" {
 				sel = append(sel, c)
 			}
 		}
@@ -370,6 +403,9 @@ func TestDeadlines(t *testing.T) {
 			if nt {
 				ev.NonTrivial(c.String())
 				ev.Label("fault:" + c.Call + ":" + c.Fault)
+				if c.Prelude != "" {
+					ev.Label("after-failed-call:" + c.Call + ":" + c.Prelude)
+				}
 			}
 			if i%23 == 0 {
 				ev.Sample(map[string]any{"call": c.Call, "fault": c.Fault, "from request": c.K + 1, "attempt timeout": c.T.String(), "deadline": c.D.String()})
@@ -391,7 +427,7 @@ func TestDeadlines(t *testing.T) {
 func TestCoverage(t *testing.T) {
 	need := []string{"deadlines-complete"}
 	for _, call := range []string{"sessionless", "newsession", "insession", "close", "sdr", "dcmi"} {
-		need = append(need, "control:"+call, "fault:"+call+":blackhole", "fault:"+call+":garbage", "fault:"+call+":garbage-then-blackhole")
+		need = append(need, "after-failed-call:"+call+":timed-out", "after-failed-call:"+call+":expired-context", "control:"+call, "fault:"+call+":blackhole", "fault:"+call+":garbage", "fault:"+call+":garbage-then-blackhole")
 	}
 	ev.RequireLabels(t, 1, need...)
 }
